@@ -84,6 +84,7 @@ class _Run:
         self.shapes = list(self.plan.get("shapes") or ["plain"] * 3)      # class of the object in each pool slot
         self.made = {}           # tag -> Made: what the dispenser's factory method created (never unregistered)
         self.made_by_id = {}     # MODEL of that separate namespace: generated id -> tag
+        self.failed_x = set()    # registered objects that went through a register() that had to fail (part of the key)
         self.hooks = {}          # tag -> callable the factory object runs inside Daemon.register() (a slow registration)
         self.remote = 0
         self.accepted = 0
@@ -112,6 +113,9 @@ class _Run:
             # the history pattern - what last changed the registrations of the multi-id object this finding is about
             mx = [x for x in self._ix if x is not None and x in self.multi_x]
             key = "multi-id:" + self.mark_state(mx[0])
+        elif any(x in self.failed_x for x in self._ix if x is not None):
+            # a registered object for which a further register() had to fail (and did): the failure must have changed nothing
+            key = "after-failed-registration"
         self.ctx.violate(kind, "%s:%s" % (tier, key),
                          "step %d %s: %s" % (self.i, json.dumps(self.op, sort_keys=True), msg))
         raise _Stop()
@@ -305,6 +309,22 @@ class _Run:
         except Exception as e:  # noqa
             got = ("error", type(e).__name__, str(e)[:160])
         self.sched.ev("reg", self.i, x, oid, force, weak, got[0])
+        shape = self.shapes[x[1]] if x[0] == "o" else None
+        if shape == "frozen" or (shape == "noweak" and weak):
+            # this registration cannot succeed: the object cannot take the daemon's marks / cannot be referenced weakly.
+            # Which exception is raised does not matter; the failed operation must not have changed anything.
+            if got[0] == "ok":
+                if shape == "noweak":
+                    self.viol("weak-registration-not-weak", "no-weakref-support", "%s does not support weak references, so the weak "
+                              "registration under %r that the daemon accepted can only be a strong one: the daemon keeps the object alive "
+                              "and its id known after the application dropped it" % (self.name(xk), got[1]))
+                self.viol("unmarkable-object-registered", shape, "%s cannot take the registration marks yet register() returned %r"
+                          % (self.name(xk), got[1]))
+            ctx.probe("register_failed_" + shape)
+            if mine:
+                self.failed_x.add(xk)
+            self.audit("register-failed:" + ("forced" if force else "unforced"))
+            return
         if got[0] == "error":
             self.viol("unexpected-error", "register:" + got[1], "register raised %s: %s" % (got[1], got[2]))
         must_refuse = (not force) and (dup_obj or dup_id)
@@ -643,6 +663,14 @@ class _Run:
         xk = ("o", self.serial[k])
         ids = self.ids_of(xk)
         self.involve([xk], ids, reset=True)
+        if self.shapes[k] == "noweak":
+            # cannot be watched through a weak reference (and can only be registered strongly): if it is registered the
+            # daemon keeps it, else it is simply replaced by a fresh object
+            if not ids:
+                del self.pool[k]
+                gc.collect()
+                self.fresh(k)
+            return
         if any(not self.table[i][1] for i in ids):
             # strongly registered: the harness lets go of it all the same - the registration must keep it alive and known
             # (no settle() here: nothing is scheduled, so histories recorded before this check existed replay unchanged)
@@ -770,6 +798,78 @@ class _Run:
         if sched.preempts + sched.stalls > pre0:
             ctx.probe("par_overlap")
 
+    def held_by_pyro(self, w):
+        """is the object behind weakref w referred to (within a few hops) by an object of the library under test?"""
+        seen = set()
+        level = [w()]
+        seen.add(id(level))
+        for _depth in range(4):
+            nxt = []
+            seen.add(id(nxt))
+            for o in level:
+                refs = gc.get_referrers(o)
+                seen.add(id(refs))
+                for r in refs:
+                    if id(r) in seen or type(r).__name__ == "frame":
+                        continue
+                    seen.add(id(r))
+                    if (type(r).__module__ or "").startswith("Pyro5"):
+                        del level, nxt, refs, o, r
+                        return True
+                    nxt.append(r)
+                del refs
+            level = nxt
+            if len(level) > 2000:
+                break
+        del level
+        return False
+
+    def do_tmake(self, op):
+        """a per-client object made on demand: the factory registers it WEAKLY, tracks it as a resource of the calling
+        client's connection and returns it; the application drops it while that client is still connected: it must be
+        collected and its id must be gone, like for any weakly registered object"""
+        ctx = self.ctx
+        self.involve(reset=True)
+        tag, ser = 5000 + self.i, op["ser"]
+        p = self.proxy(DISP_ID, ser)
+        try:
+            out = self.invoke(p, "make", (tag, "tracked"))
+            self.settle()
+            if out[0] != "ok":
+                self.viol("make-failed", "tracked:" + str(out[1] if len(out) > 1 else out[0]), "factory call (weak + tracked) failed: %r" % (out,))
+            if not isinstance(out[1], CL.Proxy):
+                self.viol("made-object-not-proxy", "tracked", "the weakly registered factory object must arrive as a proxy; got %r" % (out[1],))
+            oid, loc = out[1]._pyroUri.object, out[1]._pyroUri.location
+            del out
+            self.sched.ev("tmake", self.i, oid)
+            self.involve(ids=[oid])
+            if loc != self.loc or oid in self.table or oid in RESERVED or oid in self.made_by_id:
+                self.viol("generated-ids-not-distinct", "tracked", "factory object got id %r at %r" % (oid, loc))
+            self.made_by_id[oid] = tag
+            self.audit("tracked-make")
+            self.check_made(oid, ser)
+            # the application lets go of it; the client that made it is still connected
+            del self.made_by_id[oid]
+            w = weakref.ref(self.made.pop(tag))
+            self.settle()
+            gc.collect()
+            if w() is not None:
+                if not self.held_by_pyro(w):
+                    raise S.HarnessError("tracked factory object did not die and nothing of Pyro5 holds it (%d referrers)"
+                                         % len(gc.get_referrers(w())))
+                self.viol("weak-object-kept-alive", "tracked-resource", "the factory object is registered weakly (%r) and tracked as a "
+                          "resource of the still connected client; the application dropped it, yet the library keeps it alive" % (oid,))
+            self.id_lost[oid] = "collected"
+            self.audit("tracked-gc")
+            out = self.remote_call(oid, ser)
+            if out[0] != "unknown":
+                self.viol("call-reached-unknown-id", "collected", "id %r belonged to a collected weakly registered object yet a call gave %r"
+                          % (oid, out))
+            ctx.probe("tracked_weak_collected")
+        finally:
+            p._pyroRelease()
+        self.settle()
+
     def check_made(self, oid, ser):
         tag = self.made_by_id[oid]
         obj = self.made.get(tag)
@@ -795,7 +895,7 @@ class _Run:
         for slot in range(3):
             self.fresh(slot)
         self.daemon.register(O.Dispenser(self.pool, self.made, self.hooks), DISP_ID)
-        steps = {"par": self.do_par, "reg": self.do_reg, "unreg": self.do_unreg, "uri": self.do_uri, "proxy": self.do_proxy, "call": self.do_call,
+        steps = {"par": self.do_par, "tmake": self.do_tmake, "reg": self.do_reg, "unreg": self.do_unreg, "uri": self.do_uri, "proxy": self.do_proxy, "call": self.do_call,
                  "ret": self.do_ret, "gc": self.do_gc, "list": lambda op: self.do_list(op.get("ser", "serpent"))}
         for i, op in enumerate(plan["ops"]):
             self.i, self.op = i, op
@@ -844,7 +944,7 @@ class RegistryWorld(World):
               "weak_collected", "weak_collected_unknown", "duplicate_refused", "reserved_refused", "forced", "class_registered",
               "generated_id", "registered_listing", "serpent", "json", "msgpack", "multiplex", "thread",
               "shape_len0", "shape_bool0", "shape_state", "par_make", "par_overlap", "par_gc_weak", "strong_survives_gc",
-              "shape_inst"]
+              "shape_inst", "shape_noweak", "register_failed_frozen", "register_failed_noweak", "tracked_weak_collected"]
     RULE = ("plan = (server type, generator tier core|extended, 3-10 steps (thorough: -16) of register / unregister / uriFor / "
             "proxyFor / call / return-object / gc / registered over 3 pool objects + 2 classes + ids id0..id2, generated, "
             "colliding ('the current or last id of object k'), reserved; force only in the extended tier; weak for objects; "
@@ -860,7 +960,10 @@ class RegistryWorld(World):
             "2-3 clients call the dispenser's factory method (register without id, return object or uri) at the same "
             "instant, optionally one of the new objects is slow to take its marks (its thread sits inside register()) and the "
             "driver drops + collects a weakly registered pool object meanwhile; a gc point on a strongly registered object "
-            "drops the harness reference too: the object must survive; distinct = distinct plan; non-trivial = a registration was accepted and a remote step ran")
+            "drops the harness reference too: the object must survive; pool shapes also include objects that cannot take the "
+            "registration marks ('frozen') and objects without weak-reference support ('noweak'): their (weak) registration must "
+            "fail and change nothing; 'tmake' = factory object registered weakly + tracked as a connection resource, dropped while "
+            "the creating client is still connected; distinct = distinct plan; non-trivial = a registration was accepted and a remote step ran")
     ASSUMPTIONS = ["the id -> object table is the truth; marks on objects are not consulted",
                    "register(x, 'Pyro.Daemon', force=True) and any forced registration over the dispenser are not generated",
                    "unregistering something that is not registered may be refused or silently ignored; the table must not change",
@@ -869,6 +972,9 @@ class RegistryWorld(World):
                    "histories are sequential except for 'par' steps, whose factory-made objects live in a namespace of their "
                    "own (generated ids, never unregistered): the sequential model of the 3-slot pool is not touched by them",
                    "a registered object's truth value / length has no bearing on any clause",
+                   "a register() that cannot succeed (object refuses the marks; weak=True without weak-reference support) may "
+                   "raise anything but must change nothing; an ACCEPTED weak registration of an object without weak-reference "
+                   "support can only be a strong one and is reported",
                    "pool objects' class is never itself registered as a class",
                    "the tier in a violation key is 'extended' iff an effective force (one that an unforced call would have refused) "
                    "was accepted earlier in the history"]
@@ -937,7 +1043,28 @@ class RegistryWorld(World):
             if rng.random() < 0.6:
                 return {"op": "proxy", "x": self._x(rng), "ser": rng.choice(SERIALIZERS)}
             return {"op": "proxy", "id": self._idref(rng), "ser": rng.choice(SERIALIZERS)}
-        return {"op": "list", "ser": rng.choice(SERIALIZERS)}
+        if r < 0.985:
+            return {"op": "list", "ser": rng.choice(SERIALIZERS)}
+        return {"op": "tmake", "ser": rng.choice(RET_SERS)}
+
+    def _focus_failed_registration(self, rng, a, shape):
+        """directed tail around a registration that must fail (a = slot of an object that cannot take the marks, or one
+        without weak-reference support registered weakly): over an id in use with force, under a fresh / generated id;
+        the failed operation must leave everything as it was"""
+        b = rng.choice([k for k in range(3) if k != a])
+        seq = [{"op": "reg", "x": ["o", b], "id": rng.choice(LIT_IDS + [None]), "force": False, "weak": rng.random() < 0.3}]
+        if shape == "noweak" and rng.random() < 0.6:
+            # the object itself is registered (strongly) already: a failed forced weak re-registration must not touch that
+            seq.append({"op": "reg", "x": ["o", a], "id": rng.choice(["id1", "id2", None]), "force": False, "weak": False})
+        seq.append({"op": "reg", "x": ["o", a], "id": rng.choice(["@o%d" % b, "@o%d" % b, "@o%d" % a, "id2", None]), "force": True,
+                    "weak": shape == "noweak" or rng.random() < 0.3})
+        seq += [{"op": "call", "id": "@o%d" % b, "ser": rng.choice(SERIALIZERS)}, {"op": "ret", "k": b, "ser": rng.choice(RET_SERS)},
+                {"op": "ret", "k": a, "ser": rng.choice(RET_SERS)}, {"op": "uri", "x": ["o", a]}]
+        seq.append({"op": "reg", "x": ["o", a], "id": rng.choice([None, "id0"]), "force": False, "weak": shape == "noweak"})
+        seq.append({"op": "list", "ser": rng.choice(SERIALIZERS)})
+        if rng.random() < 0.5:
+            seq.append({"op": "unreg", "by": "obj", "x": ["o", a]})
+        return seq
 
     def _motif(self, rng, gtier):
         """a short directed sequence (id re-use after an object lost it, second id for one object) ending in a step
@@ -1049,9 +1176,19 @@ class RegistryWorld(World):
             plan["focus"] = "stale-unregister-weak-holder"
         shapes = ["plain", "plain", "plain"]
         if rng.random() < 0.5:
-            shapes = [rng.choice(["plain", "len0", "bool0", "state"]) for _ in range(3)]
+            shapes = [rng.choice(["plain", "plain", "len0", "bool0", "state", "frozen", "noweak"]) for _ in range(3)]
         if "focus" not in plan:
             r = rng.random()
+            if r >= 0.09 and r < 0.15:
+                a = rng.randrange(3)
+                shape = rng.choice(["frozen", "noweak"])
+                del ops[:]
+                for _ in range(rng.choice([0, 0, 1, 2])):
+                    ops.append(self._op(rng, gtier))
+                ops.extend(self._focus_failed_registration(rng, a, shape))
+                shapes[a] = shape
+                gtier = plan["gtier"] = "extended"
+                plan["focus"] = "failed-registration"
             if r < 0.05:
                 del ops[:]
                 for _ in range(rng.choice([0, 0, 1, 2])):
